@@ -5,6 +5,7 @@ import PoolModel.Sha256
   `tkt <hex>`  → outcome of `DeserializeTicket` on arbitrary bytes
   `str <hex>`  → outcome of `DecodeString` on an arbitrary string (hex of its bytes)
   `prep <msg>` → `ParseRPCBatch` outcome, then what the rpcServer and the SidecarAcceptor handlers do
+  `mo <entry>` → outcome class of `ParseRPCMatchedOrders` on one (nonce, MatchedOrder) map entry
   `pcls <msg>` → outcome class of `ParseRPCBatch` only (messages of the concurrent scenarios)
   `sign <msg>` → `ParseRPCSign` outcome, the rpcServer handler without / with a pending batch, the
                  acceptor handler without a pending batch -/
@@ -30,7 +31,7 @@ def drvStep (s : DrvSt) (args : List String) : DrvSt × String :=
   | ["prep", m] =>
     match (parseSx m).bind sxPrepare with
     | some m =>
-      (s, joinWith " " [fmtPOut (parseRPCBatch repoRpcCfg m), fmtHandled (handlePrepare repoRpcCfg m),
+      (s, joinWith " " [(parseRPCBatch repoRpcCfg m).cls, fmtHandled (handlePrepare repoRpcCfg m),
                         fmtHandled (acceptorHandlePrepare repoRpcCfg m)])
     | none => (s, "bad-op")
   | ["prepc", m] =>
@@ -38,6 +39,10 @@ def drvStep (s : DrvSt) (args : List String) : DrvSt × String :=
     | some m =>
       (s, joinWith " " [(parseRPCBatch repoRpcCfg m).cls, fmtHandled (handlePrepare repoRpcCfg m),
                         fmtHandled (acceptorHandlePrepare repoRpcCfg m)])
+    | none => (s, "bad-op")
+  | ["mo", m] =>
+    match (parseSx m).bind sxOrders with
+    | some e => (s, (parseRPCMatchedOrders repoRpcCfg e.2).cls)
     | none => (s, "bad-op")
   | ["pcls", m] =>
     match (parseSx m).bind sxPrepare with
